@@ -291,7 +291,7 @@ static void slot_fill(Slot &s) {
     u64 b = vf_u64();
     u64 c = vf_u64();
 #ifdef KF_EXCL_C12_number_ctor_uninit
-    vf_assume(b == 0);
+    b = 0;                 // concretely clean (an assumption would leave size/capacity symbolic during symbolic execution)
 #endif
 #ifdef KF_ONLY_C12_number_ctor_uninit
     vf_assume(b != 0);
